@@ -4,8 +4,12 @@
 package c05
 
 import (
+	"bytes"
+	"encoding/gob"
 	"encoding/json"
+	"encoding/xml"
 	"fmt"
+	goahttp "goa.design/goa/v3/http"
 	"net/http"
 	"sort"
 	"strings"
@@ -32,6 +36,8 @@ type caseRec struct {
 	Err     harness.ErrorSpec `json:"err"`
 	Class   string            `json:"class"` // declared, declared-wrapped, undeclared-service, plain, wrapped-plain, namer
 	Message string            `json:"message"`
+	// Accept: the request asks for this encoding of the (default) error response
+	Accept string `json:"accept,omitempty"`
 }
 
 // declaredError is an error a method may return, with its HTTP mapping.
@@ -169,10 +175,12 @@ func checkMethod(t *testing.T, b *rt.Built, s *m.Service, meth *m.Method) bool {
 					c.Err.Sentinel = sentinelNames[k]
 					c.Err.Message = harness.Sentinels[c.Err.Sentinel].Error()
 				}
+				c.Accept = rapid.SampledFrom([]string{"", "", "application/xml", "application/gob"}).Draw(rt_, "accept")
 			case "undeclared-service", "undeclared-service-wrapped":
 				name := rapid.SampledFrom([]string{"undeclared", "error", "fault", "unsupported_media_type", "missing_field", "custom_undeclared"}).Draw(rt_, "uname")
 				c.Err = harness.ErrorSpec{Kind: "service", Name: name, ID: idGen.Draw(rt_, "id"), Message: msg,
 					Timeout: rapid.Bool().Draw(rt_, "to"), Temporary: rapid.Bool().Draw(rt_, "tmp"), Fault: rapid.Bool().Draw(rt_, "fault")}
+				c.Accept = rapid.SampledFrom([]string{"", "", "application/xml", "application/gob"}).Draw(rt_, "accept")
 				if c.Class == "undeclared-service-wrapped" {
 					// fmt.Errorf("wrapped: %w", serviceError): still a goa service
 					// error for errors.As, which is how the generated encoder and
@@ -310,6 +318,7 @@ func defaultStatus(name string, timeout, temporary, fault bool) int {
 func runCase(b *rt.Built, s *m.Service, meth *m.Method, c *caseRec) string {
 	d := b.Design
 	hc := &harness.Case{Op: "call", Svc: s.Name, Method: meth.Name, HasPayload: meth.Payload != nil, Payload: c.Payload}
+	hc.Accept = c.Accept
 	e := c.Err
 	hc.Stub = harness.StubSpec{Error: &e}
 	obs, err := b.H.Do(hc)
@@ -367,8 +376,26 @@ func runCase(b *rt.Built, s *m.Service, meth *m.Method, c *caseRec) string {
 	if de == nil {
 		// default mapping
 		var eb errBody
-		if err := json.Unmarshal(resp.Body, &eb); err != nil {
-			return fmt.Sprintf("default error body does not decode: %v (%q)", err, trunc(string(resp.Body)))
+		switch {
+		case strings.HasPrefix(ct, "application/xml") || strings.HasPrefix(ct, "application/gob"):
+			// the default error response in the encoding the response announces
+			// (asked for with Accept unless the design fixes a content type)
+			var er goahttp.ErrorResponse
+			var err error
+			if strings.HasPrefix(ct, "application/xml") {
+				err = xml.Unmarshal(resp.Body, &er)
+			} else {
+				err = gob.NewDecoder(bytes.NewReader(resp.Body)).Decode(&er)
+			}
+			if err != nil {
+				return fmt.Sprintf("default error body (%s) does not decode: %v (%q)", ct, err, trunc(string(resp.Body)))
+			}
+			eb = errBody{Name: er.Name, ID: er.ID, Message: er.Message, Temporary: er.Temporary, Timeout: er.Timeout, Fault: er.Fault}
+			stats.Class("default-error-encoding:" + strings.SplitN(ct, ";", 2)[0])
+		default:
+			if err := json.Unmarshal(resp.Body, &eb); err != nil {
+				return fmt.Sprintf("default error body does not decode: %v (%q)", err, trunc(string(resp.Body)))
+			}
 		}
 		switch c.Class {
 		case "plain", "wrapped-plain":
